@@ -903,8 +903,9 @@ func tsValueOctets(msg, goType string, optional bool) int {
 //
 // Every Get/Set accessor of nasType carries a line "// <field> Row, sBit, len = [r1, r2], s , n":
 // the field occupies n bits starting at bit s (8 = most significant) of octet r1 of the value.
-// For the fields that lie inside one octet (r1 = r2, s - n >= 0, n <= 8) a lemma states what the
-// annotation says: the setter puts the low n bits of its argument there and changes nothing else,
+// For the fields that lie inside one octet (r1 = r2, s - n >= 0, n <= 8), for the uint16 fields
+// that span octets of a fixed array and for the whole-octet fields copied from / to a [k]uint8
+// a lemma states what the annotation says: the setter puts the low n bits of its argument there and changes nothing else,
 // the getter reads them from there.  The annotation is the library's documentation of the layout,
 // not the standard (the standard is the oracle only for the octets listed in
 // lemmas/src/free5gclib/nas/nasType/lemmas_c09.go); what the sweep decides is that the code agrees
@@ -927,6 +928,8 @@ func genNasAccessors(repo string) error {
 	nasAccSkipped, nasAccCovered = 0, 0
 	type acc struct {
 		row, sbit, n int
+		row2         int
+		argT         string
 		hasGet       bool
 		hasSet       bool
 	}
@@ -964,27 +967,32 @@ func genNasAccessors(repo string) error {
 			r2, _ := strconv.Atoi(m[2])
 			s, _ := strconv.Atoi(m[3])
 			n, _ := strconv.Atoi(m[4])
-			if r1 != r2 || n > 8 || n < 1 || s-n < 0 || s > 8 {
-				nasAccSkipped++
-				continue
+			var argT string
+			if isSet && len(fd.Type.Params.List) == 1 {
+				argT = exprStr(fset, fd.Type.Params.List[0].Type)
 			}
-			// scalar uint8 argument / result only
-			if isSet && (len(fd.Type.Params.List) != 1 || exprStr(fset, fd.Type.Params.List[0].Type) != "uint8") {
-				nasAccSkipped++
-				continue
+			if isGet && fd.Type.Results != nil && len(fd.Type.Results.List) == 1 {
+				argT = exprStr(fset, fd.Type.Results.List[0].Type)
 			}
-			if isGet && (fd.Type.Results == nil || len(fd.Type.Results.List) != 1 || exprStr(fset, fd.Type.Results.List[0].Type) != "uint8") {
+			rows := r2 - r1 + 1
+			switch {
+			case argT == "uint8" && r1 == r2 && n <= 8 && n >= 1 && s-n >= 0 && s <= 8:
+			case argT == "uint16" && r2 > r1 && rows <= 4 && n >= 1 && n <= 16 && s <= 8 && s >= 1 && rows*8-(8-s)-n >= 0:
+				// a field that spans octets: n bits from bit s of octet r1 onwards
+			case strings.HasPrefix(argT, "[") && argT == fmt.Sprintf("[%d]uint8", rows) && s == 8 && n == 8*rows:
+				// whole octets copied from / to an array
+			default:
 				nasAccSkipped++
 				continue
 			}
 			k := rt + "." + name[3:]
 			a := accs[k]
 			if a == nil {
-				a = &acc{row: r1, sbit: s, n: n}
+				a = &acc{row: r1, row2: r2, sbit: s, n: n, argT: argT}
 				accs[k] = a
 				order = append(order, k)
 			}
-			if a.row != r1 || a.sbit != s || a.n != n {
+			if a.row != r1 || a.row2 != r2 || a.sbit != s || a.n != n || a.argT != argT {
 				nasLayoutFindings = append(nasLayoutFindings, fmt.Sprintf("%s: getter and setter are annotated with different positions", k))
 				continue
 			}
@@ -1000,6 +1008,44 @@ func genNasAccessors(repo string) error {
 			t := types[tn]
 			if t == nil || !a.hasGet || !a.hasSet {
 				nasAccSkipped++
+				continue
+			}
+			if a.argT != "uint8" {
+				if t.OctetN <= 0 || a.row2 >= t.OctetN {
+					nasAccSkipped++
+					continue
+				}
+				rows := a.row2 - a.row + 1
+				var inRows []string
+				for r := a.row; r <= a.row2; r++ {
+					inRows = append(inRows, fmt.Sprintf("j == %d", r))
+				}
+				others := fmt.Sprintf("\tvc.Assert(\"others\", vc.Forall(0, %d, func(j int) bool { return %s || a.Octet[j] == o[j] }))\n", t.OctetN, strings.Join(inRows, " || "))
+				if a.argT == "uint16" {
+					// the octets r1..r2 read as one big-endian number W
+					w := func(arr string) string {
+						var parts []string
+						for i := 0; i < rows; i++ {
+							parts = append(parts, fmt.Sprintf("uint32(%s[%d])<<%d", arr, a.row+i, 8*(rows-1-i)))
+						}
+						return "(" + strings.Join(parts, " | ") + ")"
+					}
+					sh := rows*8 - (8 - a.sbit) - a.n
+					mask := (1 << uint(a.n)) - 1
+					fmt.Fprintf(&b, "// %s: %d bits from bit %d of octet %d to octet %d\n// prop: C09\n", k, a.n, a.sbit, a.row, a.row2)
+					fmt.Fprintf(&b, "func vcLemma_acc_%s_%s(o [%d]uint8, v uint16) {\n\ta := &%s{Octet: o}\n\ta.Set%s(v)\n", tn, field, t.OctetN, tn, field)
+					fmt.Fprintf(&b, "\tvc.Assert(\"set\", %s == %s&^(%#x<<%d)|(uint32(v)&%#x)<<%d)\n", w("a.Octet"), w("o"), mask, sh, mask, sh)
+					b.WriteString(others)
+					fmt.Fprintf(&b, "\tvc.Assert(\"get\", a.Get%s() == v&%#x)\n\tr := &%s{Octet: o}\n\tvc.Assert(\"read\", uint32(r.Get%s()) == %s>>%d&%#x)\n}\n\n", field, mask, tn, field, w("o"), sh, mask)
+				} else {
+					fmt.Fprintf(&b, "// %s: octets %d..%d\n// prop: C09\n", k, a.row, a.row2)
+					fmt.Fprintf(&b, "func vcLemma_acc_%s_%s(o [%d]uint8, v [%d]uint8) {\n\ta := &%s{Octet: o}\n\ta.Set%s(v)\n", tn, field, t.OctetN, rows, tn, field)
+					fmt.Fprintf(&b, "\tvc.Assert(\"set\", vc.Forall(0, %d, func(j int) bool { return a.Octet[%d+j] == v[j] }))\n", rows, a.row)
+					b.WriteString(others)
+					fmt.Fprintf(&b, "\tg := a.Get%s()\n\tvc.Assert(\"get\", vc.Forall(0, %d, func(j int) bool { return g[j] == v[j] }))\n", field, rows)
+					fmt.Fprintf(&b, "\tr := &%s{Octet: o}\n\tq := r.Get%s()\n\tvc.Assert(\"read\", vc.Forall(0, %d, func(j int) bool { return q[j] == o[%d+j] }))\n}\n\n", tn, field, rows, a.row)
+				}
+				nasAccCovered++
 				continue
 			}
 			sh := a.sbit - a.n
